@@ -41,6 +41,10 @@ class CmsDriver:
             # the threshold table is defined by the RETURNED estimates, whatever the query type
             self.qt = case["qt"]
             self.obj.query_type = self.qt
+        if self.qt == "min" and len(case["pool"]) % 3:
+            # the default query written out explicitly ('min' or None are the documented spellings of it)
+            self.obj.query_type = "min" if len(case["pool"]) % 3 == 1 else None
+            ctx.feat("query_type_min_assigned")
         self.true = Counter()
         self.ever = set()  # keys ever added (for the exactness precondition)
         self.last = {}  # most recent value returned by add/remove per key (since clear)
@@ -218,7 +222,11 @@ class CmsDriver:
         K = self._ctor()
         extra = {"hh": {"num_hitters": self.case["hitters"]}, "st": {"threshold": self.case["threshold"]}}.get(self.cls, {})
         if ch % 2 == 0:
-            new = ctx.call(self.noexc, K.frombytes, bytes(o), hash_function=self.hf, **extra)
+            raw = bytes(o)
+            if ch % 4 == 2:
+                raw = memoryview(raw)  # any bytes-like object
+                self.feats.add("reload_memoryview")
+            new = ctx.call(self.noexc, K.frombytes, raw, hash_function=self.hf, **extra)
         else:
             import os
             p = os.path.join(ctx.tmpdir(), "s.cms")
@@ -385,7 +393,7 @@ def case_strategy(tier, classes=("cms",), allow_clear=False, max_ops=40, small=F
         if over_remove:
             ops.append(st.tuples(st.just("over_remove"), ki, st.integers(0, 1000)))
         if extra_ops:
-            ops.append(st.tuples(st.just("reload"), st.integers(0, 1)))
+            ops.append(st.tuples(st.just("reload"), st.integers(0, 3)))
             ops.append(st.tuples(st.just("join"), st.lists(st.tuples(ki, st.integers(1, 5)), max_size=4)))
         c["ops"] = [list(o) for o in draw(st.lists(st.one_of(*ops), min_size=3, max_size=max_ops))]
         c["alt_mode"] = draw(st.sampled_from(["", "", "scratch", "shared"]))
